@@ -154,6 +154,16 @@ class ConstantExpressionEvaluator:
         lhs = self.eval_expr(expr.a)
         rhs = self.eval_expr(expr.b)
 
+        # Undefined operations are diagnosed, python must not raise here:
+        if op in ("/", "%") and isinstance(rhs, (int, float)) and rhs == 0:
+            self.context.error(
+                "Division by zero in constant expression", expr.location
+            )
+        if op in ("<<", ">>") and isinstance(rhs, int) and rhs < 0:
+            self.context.error(
+                "Negative shift count in constant expression", expr.location
+            )
+
         op_map = {
             "+": lambda x, y: x + y,
             "-": lambda x, y: x - y,
